@@ -84,7 +84,7 @@ func GetRawProtoField(protoBytes []byte, fieldNumber int) ([]byte, error) {
 				// calculate the new offset
 				offset += lenBytes
 				// extract the field value bytes
-				if offset+int(valueLen) > len(protoBytes) {
+				if valueLen > uint64(len(protoBytes)-offset) {
 					return nil, fmt.Errorf("field value exceeds buffer bounds")
 				}
 				// make buffer to return
